@@ -4,8 +4,8 @@ import oracle_exact
 from C01 import C01, worst_region
 
 PROPERTIES_FILE = "Properties_C02"
-TRUSTED_EXTRA = ["standard-library axioms used by exactly one theorem, C02_formula_is_the_derivative (real analysis via Coquelicot): ClassicalDedekindReals.sig_not_dec, ClassicalDedekindReals.sig_forall_dec, FunctionalExtensionality.functional_extensionality_dep, Classical_Prop.classic; every other theorem is closed under the global context"]
-ASSUMPTIONS = ["'true partial derivative': the evaluation theorems equate the code with de Boor's derivative formula (BSpline.dBfun); that the formula is the derivative of the polynomial piece is proved for strictly increasing knots (algebraically over any ordered field, analytically over R at points strictly inside knot intervals); for repeated knots it remains the textbook statement",
+TRUSTED_EXTRA = ["standard-library axioms used by exactly three theorems, C02_formula_is_the_derivative, C02_formula_is_the_derivative_repeated and C02_formula_k_is_the_kth_derivative (real analysis via Coquelicot): ClassicalDedekindReals.sig_not_dec, ClassicalDedekindReals.sig_forall_dec, FunctionalExtensionality.functional_extensionality_dep, Classical_Prop.classic; every other theorem is closed under the global context"]
+ASSUMPTIONS = ["'true partial derivative': the evaluation theorems equate the code with de Boor's derivative formula (BSpline.dBfun); that the formula is the derivative of the polynomial piece is proved for non-decreasing knots with the dropped-term convention (algebraically over any ordered field: C02_piece_derivative_formula(_repeated); analytically over R at points strictly inside knot intervals, for every derivative order: C02_formula_k_is_the_kth_derivative); at the knots themselves the one-sided convention is part of the specification (BSpline.side_of)",
                "rounding bound measured against exact rationals, not proved; bound uses the magnitudes of the terms inside the derivative formula",
                "Python exact oracle transcribes BSpline.v; cross-checked against the extracted Coq definitions on Qc on small tables every run"]
 
